@@ -206,6 +206,7 @@ class C10(PropertyCheck):
         per_call = min(max((timed(80, f'b{q}') - timed(20, f'a{q}')) / 60, 0.0005) for q in range(3))      # the fastest of three calibrations
         tl_ms = max(10, int(per_call * 1000 * 3))
         allowed = int(tl_ms / 1000 / per_call * 2) + 4
+        late = []
         for rep in range(3):
             src = f'fn w(i: int) -> int {{ let d = display("#"); {work} }}\nfn c0() -> int {{ range(100000).map(w).to_array().len() }}'
             r = core.run_harness(ctx['binary'], [{'id': 'tl', 'src': src, 'calls': ['c0'], 'limits': {'time_ms': tl_ms, 'ud_calls': 1000000, 'size': 1 << 26}}],
@@ -217,10 +218,13 @@ class C10(PropertyCheck):
             if r is None or not out.startswith('X:Timeout'):
                 violations.append({'what': 'a chain of user calls far longer than the time limit did not end in the Timeout violation', 'case': case, 'impl': out})
             elif begun > allowed:
-                violations.append({'what': f'user-function calls kept beginning after the time limit had elapsed: {begun} calls begun, at most {allowed} fit into the limit',
-                                   'case': case, 'impl': begun})
+                late.append({'what': f'user-function calls kept beginning after the time limit had elapsed: {begun} calls begun, at most {allowed} fit into the limit',
+                             'case': case, 'impl': begun})
             else:
                 distinct.add(f'timeout{rep}')
+        if len(late) == 3:
+            # a clock that is not consulted on every call is systematic: reported only when every repetition shows it (a single slow calibration does not)
+            violations.extend(late)
         ctx['coverage'] = {'evaluations': n_eval, 'distinct_nontrivial': len(distinct), 'samples': samples, 'grid_points': len(grid), 'pipelines': len(pj), 'pipeline_outcomes': kinds,
                            'timeout_calibration': {'seconds_per_call': round(per_call, 5), 'time_limit_ms': tl_ms, 'calls_allowed': allowed}}
         return violations
